@@ -129,9 +129,17 @@ def check_fill(out: Outcome, s: np.ndarray, tag: str):
     T, A = s.shape
     sites = gem.make_sites(np.eye(3) * 8, hist.SITE_POOL[:2])
     tr = Transitions(trajectory=None, diff_trajectory=None, sites=sites, events=None,
-                     states=s, inner_states=s)
-    prev = tr.states_prev()
-    nxt = tr.states_next()
+                     states=s.copy(), inner_states=s.copy())
+    order = (T + A) % 2  # both call orders are exercised
+    if order:
+        prev = np.array(tr.states_prev())
+        nxt = np.array(tr.states_next())
+    else:
+        nxt = np.array(tr.states_next())
+        prev = np.array(tr.states_prev())
+    if not np.array_equal(tr.states, s):
+        out.fail('property', 'views-altered-states', {'via': 'fill', 's': s.T.tolist()[:4]}, expected='states unchanged',
+                 observed=np.array(tr.states).T.tolist()[:4], note='states_prev()/states_next() modified Transitions.states')
     lines = []
     for a in range(A):
         lines.append((f'f{a}', f'ffill {enc_list(s[:, a])}'))
